@@ -42,7 +42,7 @@ extern "C" void h_error()
 
 // ---- generic QXmppIq ----
 VOCAB(h_iq, ARR("iq", "error", "bind", "ping", "text", "item-not-found", "zz"), ARR("", NS_CLIENT, NS_STANZA, NS_BIND, "x:y"),
-      ARR("id", "to", "from", "type", "code", "zz"), ARR("get", "set", "result", "error", "cancel", "modify"))
+      ARR("id", "type"), ARR("get", "result", "error", "cancel"))
 #define STANZA_FIXPOINT(T, name, t) { T x; x.parse(t); VpWriter w1; x.toXml(w1.writer()); QDomElement t1 = w1.root(); \
       T y; y.parse(t1); VpWriter w2; y.toXml(w2.writer()); QDomElement t2 = w2.root(); \
       vp_assert(vp_dom_equal(&t1, &t2), "C02 " name ": parse/serialize is a fix point (second pass gives the same document)"); }
